@@ -204,6 +204,18 @@ def observe(c):
     return term, exc, r, (cx or "None"), d
 
 
+def eval_robust(named, timeout=900, jobs=6):
+    """coq_eval_many; a shard that died without any output (killed by its wall-clock timeout on a loaded machine) is
+    evaluated once more, alone, with a four times larger budget: a slow machine must not look like a failed comparison"""
+    res = vlib.coq_eval_many(named, timeout=timeout, jobs=jobs)
+    for i, (ok, out) in enumerate(res):
+        if not ok and not out.strip():
+            res[i] = vlib.coq_eval_many([named[i]], timeout=4 * timeout, jobs=1)[0]
+            if not res[i][0] and not res[i][1].strip():
+                res[i] = (False, f"coqc produced no output for {named[i][0]} within {4 * timeout} s (killed by timeout)")
+    return res
+
+
 def emit(cases, shard=120):
     files = []
     for si in range(0, len(cases), shard):
@@ -337,7 +349,7 @@ def run(ctx: vlib.Ctx, n_schemas: int, per_schema: int):
     if not br.ok:
         return cases, None, "model does not build: " + (br.error or "")
     files = emit(cases)
-    res = vlib.coq_eval_many([(f"c05_typed_{i}", txt) for i, txt in enumerate(files)], timeout=900, jobs=6)
+    res = eval_robust([(f"c05_typed_{i}", txt) for i, txt in enumerate(files)], timeout=900, jobs=6)
     bad, shard = [], 120
     for n, (ok, out) in enumerate(res):
         if not ok:
